@@ -1,6 +1,7 @@
 (* C05 — parsing never panics, overflows or hangs on any input (model level). *)
 From hls Require Import Base Float Lex Kinds Types Tags Line Keys Media Master.
-From hls.Proofs Require Import Build Parse MediaProps NoPanic.
+From hls Require Import ByteLex.
+From hls.Proofs Require Import Build Parse MediaProps NoPanic ByteLexProof.
 Open Scope N_scope.
 
 (* for every string and every pre-configured builder, the media parser returns Ok or Err *)
@@ -46,6 +47,47 @@ Proof. exact pairs_fuel_enough. Qed.
 Check C05_tokenizer_progress : forall f1 f2 s, (List.length s < f1)%nat -> (List.length s < f2)%nat ->
   pairs_fuel f1 s = pairs_fuel f2 s.
 Print Assumptions C05_tokenizer_progress.
+
+(* out-of-range slicing and index arithmetic: Model/ByteLex.v restates AttributePairs::next, unquote and tag at the level the
+   Rust code is written (byte offsets into the UTF-8 string; `&s[a..b]` panics when a > b, b > len or an offset is not a
+   character boundary; checked usize subtraction).  For EVERY string that index-level model returns exactly what the
+   structural model used everywhere else returns: no slice is ever out of range or off a boundary, no subtraction underflows. *)
+Theorem C05_tokenizer_indices : forall s, pairs_idx s = Ok (attr_pairs s).
+Proof. exact pairs_idx_refines. Qed.
+Check C05_tokenizer_indices : forall s, pairs_idx s = Ok (attr_pairs s).
+Print Assumptions C05_tokenizer_indices.
+
+Theorem C05_tokenizer_step : forall p tail,
+  next_idx (p ++ tail) (byte_len p) =
+  Ok (match next_struct tail with
+      | Some (kv, rest) => Some (kv, byte_len (p ++ tail) - byte_len rest)
+      | None => None
+      end).
+Proof. exact next_idx_refines. Qed.
+Check C05_tokenizer_step : forall p tail,
+  next_idx (p ++ tail) (byte_len p) =
+  Ok (match next_struct tail with
+      | Some (kv, rest) => Some (kv, byte_len (p ++ tail) - byte_len rest)
+      | None => None
+      end).
+Print Assumptions C05_tokenizer_step.
+
+Theorem C05_unquote_slice : forall s, unquote_idx s = Ok (unquote s).
+Proof. exact unquote_idx_refines. Qed.
+Check C05_unquote_slice : forall s, unquote_idx s = Ok (unquote s).
+Print Assumptions C05_unquote_slice.
+
+Theorem C05_tag_split : forall input prefix, tag_idx input prefix = tag input prefix.
+Proof. exact tag_idx_refines. Qed.
+Check C05_tag_split : forall input prefix, tag_idx input prefix = tag input prefix.
+Print Assumptions C05_tag_split.
+
+(* the index-level model can express the panics: the slice of the unquote defect D15 (`&value[1..0]` on a lone quote), a slice
+   off a character boundary, an underflow *)
+Example C05_slicing_panics :
+  slice [34] 1 0 = Panic /\ slice (lit "a") 0 2 = Panic /\ slice [233; 97] 1 2 = Panic /\ usub 0 1 = Panic
+  /\ slice (lit "abc") 1 2 = Ok (lit "b") /\ pairs_idx (lit " A = ""x,y"" ,B=1") = Ok [(lit "A", lit """x,y"""); (lit "B", lit "1")].
+Proof. vm_compute. repeat split; reflexivity. Qed.
 
 (* the inputs that used to panic are rejected *)
 Example C05_example :
